@@ -12,6 +12,7 @@ import (
 	"os"
 	"path/filepath"
 	"strings"
+	"sync/atomic"
 	"time"
 	"unicode/utf8"
 
@@ -57,16 +58,23 @@ func c02MakeStream(kind string, text []byte, plan c02Plan, dir string) (slip.Obj
 	case "input-stream/cut-reader":
 		return slip.NewInputStream(plan.reader(text)), func() {}
 	case "file-stream":
-		path := filepath.Join(dir, "c02-hist.lisp")
-		_ = os.WriteFile(path, text, 0o644)
+		// a name of its own per stream: a history abandoned at its deadline may still be running
+		path := filepath.Join(dir, fmt.Sprintf("c02-stream-%d-%d.lisp", os.Getpid(), c02FileSeq.Add(1)))
+		if err := os.WriteFile(path, text, 0o644); err != nil {
+			fmt.Fprintln(os.Stderr, "C02 harness: cannot write", path, err)
+			os.Exit(2)
+		}
 		f, err := os.Open(path)
 		if err != nil {
-			panic(err)
+			fmt.Fprintln(os.Stderr, "C02 harness: cannot open", path, err)
+			os.Exit(2)
 		}
-		return (*slip.FileStream)(f), func() { _ = f.Close() }
+		return (*slip.FileStream)(f), func() { _ = f.Close(); _ = os.Remove(path) }
 	}
 	panic("c02MakeStream: " + kind)
 }
+
+var c02FileSeq atomic.Uint64
 
 var c02HistForms map[byte]slip.Object
 
@@ -191,18 +199,33 @@ func c02RunHist(kind string, text []byte, ops string, plan c02Plan, cfg c02Cfg, 
 	return
 }
 
-// c02RunHistTimed is c02RunHist with a deadline: a stream operation that no longer terminates (a
-// pushed back character handed out for ever) becomes the trace item "hang", a disagreement, instead
-// of hanging the check. The abandoned goroutine is left behind.
-func c02RunHistTimed(kind string, text []byte, ops string, plan c02Plan, cfg c02Cfg, dir string) []string {
+// c02RunHistTimed is c02RunHist with a first-pass deadline: a stream operation that no longer
+// terminates (a pushed back character handed out for ever) must not hang the check. Exceeding the
+// deadline is only a suspicion (the machine may be busy): the history is then re-run alone in a
+// worker process under a CPU time limit (c02RunAlone); what the worker observed is the trace, and only
+// when the worker does not finish either the trace is the single item "hang" (or "crash"), a
+// disagreement with every model trace. The abandoned goroutine is left behind.
+func c02RunHistTimed(c *lib.Ctx, kind string, text []byte, ops string, plan c02Plan, cfg c02Cfg, dir string) []string {
+	job := &c02Job{Kind: "hist", StreamKind: kind, text: text, Plan: plan, Base: cfg.Base, Sym: cfg.Sym, Ops: ops}
+	c02Enter(job)
 	ch := make(chan []string, 1)
 	go func() { ch <- c02RunHist(kind, text, ops, plan, cfg, dir) }()
+	timer := time.NewTimer(c02HistFirstPass)
+	defer timer.Stop()
 	select {
 	case tr := <-ch:
 		return tr
-	case <-time.After(20 * time.Second):
-		return []string{"hang"}
+	case <-timer.C:
 	}
+	c02Leave()
+	c.Ev.Count("histories_rerun_alone", 1)
+	fmt.Fprintf(os.Stderr, "C02 harness: a history did not finish within %v, re-running it alone: %s\n", c02HistFirstPass, job.describe())
+	res, verdict, detail := c02RunAlone(c, job)
+	if verdict == "done" {
+		return res.Trace
+	}
+	fmt.Fprintf(os.Stderr, "C02 harness: history %s: %s (%s)\n", job.describe(), verdict, detail)
+	return []string{verdict}
 }
 
 // c02HistOps builds a random legal operation string for a stream kind: unread-char only directly
@@ -339,9 +362,11 @@ func c02Histories(c *lib.Ctx, r *c02Runner, random []*c02Case) {
 	for i, hc := range cases {
 		reqs[i] = fmt.Sprintf("read hist %d %s %s %s", hc.cfg.Base, hc.cfg.Fmt, c02Hex(hc.text), hc.ops)
 	}
+	c02Leave()
 	replies := c.Model(reqs)
 	nOps, nPushback, hangs := 0, 0, 0
 	for i, hc := range cases {
+		c02CurCell.Store(&cases[i].cell)
 		want := c02Expected(replies[i])
 		unsupported := false
 		for k, it := range want.Objs {
@@ -356,7 +381,7 @@ func c02Histories(c *lib.Ctx, r *c02Runner, random []*c02Case) {
 			c.Ev.Count("histories_skipped_after_hangs", 1)
 			continue
 		}
-		got := c02RunHistTimed(hc.kind.name, hc.text, hc.ops, hc.plan, hc.cfg, dir)
+		got := c02RunHistTimed(c, hc.kind.name, hc.text, hc.ops, hc.plan, hc.cfg, dir)
 		if len(got) > 0 && got[len(got)-1] == "hang" {
 			hangs++
 		}
